@@ -973,7 +973,15 @@ namespace BitSerializer::Convert::Utf
 		}
 
 		[[nodiscard]] bool IsEnd() const noexcept {
-			return mStartDataPtr == mEndDataPtr && mInputStream.eof();
+			// A stream in a failed state (read error) will not deliver more data either
+			return mStartDataPtr == mEndDataPtr && (mInputStream.eof() || mInputStream.fail());
+		}
+
+		/// <summary>
+		/// Returns `true` when reading was ended by an error of the stream (not by the end of file).
+		/// </summary>
+		[[nodiscard]] bool IsFailed() const noexcept {
+			return mInputStream.bad() || (mInputStream.fail() && !mInputStream.eof());
 		}
 
 		[[nodiscard]] UtfType GetSourceUtfType() const noexcept {
